@@ -41,9 +41,9 @@ type priceRec struct {
 }
 
 const (
-	repDiligent = iota // reports in the block after the request
-	repLastBlock       // reports in the expiry block (last chance)
-	repLate            // reports one block after expiry (rejected, miss)
+	repDiligent  = iota // reports in the block after the request
+	repLastBlock        // reports in the expiry block (last chance)
+	repLate             // reports one block after expiry (rejected, miss)
 	repNever
 	repRandom
 )
@@ -63,14 +63,14 @@ const (
 )
 
 type mval struct {
-	active bool
-	since  time.Time
-	stored map[string]priceRec // the validator's price list as the chain keeps it (re-shaped to the current feeds on every accepted submission)
-	kept   map[string]priceRec // last accepted submission per signal, never forgotten
+	active                     bool
+	since                      time.Time
+	stored                     map[string]priceRec // the validator's price list as the chain keeps it (re-shaped to the current feeds on every accepted submission)
+	kept                       map[string]priceRec // last accepted submission per signal, never forgotten
 	repPol, pricePol, reactPol int
-	skip   map[string]bool  // pricePartial: signals never priced
-	delta  map[string]int64 // priceBoundary: seconds added to last+interval
-	clean  bool             // diligent in both roles and no tx of it was ever rejected
+	skip                       map[string]bool  // pricePartial: signals never priced
+	delta                      map[string]int64 // priceBoundary: seconds added to last+interval
+	clean                      bool             // diligent in both roles and no tx of it was ever rejected
 }
 
 type mreq struct {
@@ -101,28 +101,28 @@ type hist struct {
 	rng    *sim.Rng
 	caseID int
 	// parameters
-	expCnt   int64
-	penalty  time.Duration
-	fp       feedstypes.Params
-	kind     int // 0 oracle only, 1 feeds only, 2 both
-	regime   int // 0 fast, 1 slow, 2 mixed
-	subsec   bool
-	signals  []string
-	vals     []*mval
-	reqs     []*mreq
-	lastExp  uint64
-	cf       feedstypes.CurrentFeeds // current feeds after the last block
-	updT     time.Time               // model: time of the last feed-list update
-	updH     int64
-	prevT    time.Time
-	deleg    []int64
-	txs      [][]byte
-	exps     []txExp
-	oplog    []string
-	failed   bool
-	sig      interface{ Write([]byte) (int, error) }
-	nFlips   int
-	nextT    time.Time
+	expCnt  int64
+	penalty time.Duration
+	fp      feedstypes.Params
+	kind    int // 0 oracle only, 1 feeds only, 2 both
+	regime  int // 0 fast, 1 slow, 2 mixed
+	subsec  bool
+	signals []string
+	vals    []*mval
+	reqs    []*mreq
+	lastExp uint64
+	cf      feedstypes.CurrentFeeds // current feeds after the last block
+	updT    time.Time               // model: time of the last feed-list update
+	updH    int64
+	prevT   time.Time
+	deleg   []int64
+	txs     [][]byte
+	exps    []txExp
+	oplog   []string
+	failed  bool
+	sig     interface{ Write([]byte) (int, error) }
+	nFlips  int
+	nextT   time.Time
 }
 
 func (h *hist) log(s string, a ...any) {
